@@ -280,3 +280,75 @@ Proof.
     assert (Hy : rho = y) by congruence. rewrite Hy. unfold y. clear Hrho Hy y. cbn [q_of].
     rewrite Q2R_Qred, Q2R_mult, Q2R_div' by exact Hme0. field. exact Hme0.
 Qed.
+
+(* ------------------------------------------------------------------ the tables are ordered by wavelength *)
+Fixpoint decreasing_fromb (e0 : Q) (rest : list erow) : bool :=
+  match rest with
+  | [] => true
+  | (e1, _, _) :: r => (Qlt_bool e1 e0 && decreasing_fromb e1 r)%bool
+  end.
+Definition rows_sortedb (rows : list erow) : bool :=
+  match rows with [] => true | (e0, _, _) :: r => decreasing_fromb e0 r end.
+
+Lemma node_x_lt : forall e0 e1, (0 < e0)%Q -> (0 < e1)%Q -> Qlt_bool e1 e0 = true -> node_x_R e0 < node_x_R e1.
+Proof.
+  intros e0 e1 H0 H1 H. apply Qlt_bool_Rlt in H. apply Q2R_pos in H0, H1. unfold node_x_R.
+  apply sqrt_div_lt; [exact EF_R_pos|lra|lra|lra].
+Qed.
+
+Lemma decreasing_increasing_re : forall rest e0 y0, (0 < e0)%Q -> rows_pos rest ->
+  decreasing_fromb e0 rest = true -> increasing_from (node_x_R e0) (re_nodes_R rest).
+Proof.
+  induction rest as [|[[e1 re1] im1] r IH]; intros e0 y0 H0 Hp H; [exact I|].
+  cbn [decreasing_fromb] in H. apply andb_prop in H. destruct H as [H1 H2].
+  inversion Hp as [|? ? Hp1 Hp2]; subst. cbn [fst] in Hp1. cbn [re_nodes_R map increasing_from]. split.
+  - apply node_x_lt; assumption.
+  - apply (IH e1 re1 Hp1 Hp2 H2).
+Qed.
+Lemma decreasing_increasing_im : forall rest e0 y0, (0 < e0)%Q -> rows_pos rest ->
+  decreasing_fromb e0 rest = true -> increasing_from (node_x_R e0) (im_nodes_R rest).
+Proof.
+  induction rest as [|[[e1 re1] im1] r IH]; intros e0 y0 H0 Hp H; [exact I|].
+  cbn [decreasing_fromb] in H. apply andb_prop in H. destruct H as [H1 H2].
+  inversion Hp as [|? ? Hp1 Hp2]; subst. cbn [fst] in Hp1. cbn [im_nodes_R map increasing_from]. split.
+  - apply node_x_lt; assumption.
+  - apply (IH e1 im1 Hp1 Hp2 H2).
+Qed.
+
+Theorem sorted_rows_increasing : forall rows, rows_pos rows -> rows_sortedb rows = true ->
+  increasing (re_nodes_R rows) /\ increasing (im_nodes_R rows).
+Proof.
+  intros [|[[e0 re0] im0] r] Hp H; [split; exact I|].
+  inversion Hp as [|? ? Hp1 Hp2]; subst. cbn [fst] in Hp1. cbn [rows_sortedb] in H.
+  cbn [re_nodes_R im_nodes_R map increasing]. split.
+  - apply (decreasing_increasing_re r e0 re0 Hp1 Hp2 H).
+  - apply (decreasing_increasing_im r e0 im0 Hp1 Hp2 H).
+Qed.
+
+Definition tab_sortedb (r : nrec) : bool :=
+  match r_tab r with Some (ETab rows) => (rows_posb rows && rows_sortedb rows)%bool | _ => true end.
+Lemma sweep_tab_sorted_c : on_st the_nsf (fun s => all_recs s tab_sortedb) = true.
+Proof. vm_compute. reflexivity. Qed.
+
+(* every energy table of the regenerated data is strictly increasing in wavelength *)
+Theorem energy_tables_increasing : forall z a rows, r_tab (nd_rec the_nd z a) = Some (ETab rows) ->
+  increasing (re_nodes_R rows) /\ increasing (im_nodes_R rows).
+Proof.
+  intros z a rows H. destruct the_nsf_loaded as [s E]. rewrite (the_nd_rec s E) in H. unfold neutron_of in H.
+  destruct (rec_of s z a) as [r|] eqn:Er; [|discriminate H].
+  unfold rec_of in Er. destruct (rid_of s z a) as [i|]; [|discriminate Er].
+  pose proof (on_st_elim _ _ s sweep_tab_sorted_c E) as Hs.
+  pose proof (all_recs_elim s _ Hs i r Er) as Hr. unfold tab_sortedb in Hr. rewrite H in Hr.
+  apply andb_prop in Hr. destruct Hr as [H1 H2]. apply sorted_rows_increasing; [apply rows_posb_ok; exact H1|exact H2].
+Qed.
+
+(* hence, at the wavelength of a tabulated energy the documented b_c is the tabulated one, for the
+   actual tables *)
+Theorem tabulated_at_nodes : forall z a rows e re im,
+  r_tab (nd_rec the_nd z a) = Some (ETab rows) -> In (e, re, im) rows ->
+  interp (node_x_R e) (re_nodes_R rows) = Q2R re /\ interp (node_x_R e) (im_nodes_R rows) = Q2R im.
+Proof.
+  intros z a rows e re im H Hin. destruct (energy_tables_increasing z a rows H) as [H1 H2]. split.
+  - apply (interp_node _ H1). unfold re_nodes_R. apply in_map_iff. exists (e, re, im). split; [reflexivity|exact Hin].
+  - apply (interp_node _ H2). unfold im_nodes_R. apply in_map_iff. exists (e, re, im). split; [reflexivity|exact Hin].
+Qed.
